@@ -14,9 +14,12 @@ THEOREMS = [
     'Lcdb.C01.get_absent',
     'Lcdb.C01.invCheck_sound',
     'Lcdb.C01.get_eq_view_examples',
+    'Lcdb.C06.history_refines',
+    'Lcdb.C06.background_preserves_view',
+    'Lcdb.C14.step_preserves_inv',
 ]
-IMPORTS = ['LcdbModel.Props.C01']
-TARGETS = ['LcdbModel.Props.C01']
+IMPORTS = ['LcdbModel.Props.C01', 'LcdbModel.Props.C06']
+TARGETS = ['LcdbModel.Props.C01', 'LcdbModel.Props.C06']
 
 
 def run(tier):
